@@ -197,7 +197,24 @@ def print_assumptions(pid, names):
     for part in parts[1:]:
         name, _, rest = part.partition("\n")
         res[name.strip()] = " ".join(rest.split())
+        # the axioms relied upon: Print Assumptions starts each at the beginning of a line, "name : type" (type possibly continued on indented lines)
+        AXIOMS_OF[name.strip()] = [m.group(1) for m in re.finditer(r"^([A-Za-z_][\w.']*)\s*(?::|$)", rest, flags=re.M)
+                                   if m.group(1) not in ("Axioms", "Closed")]
     return res
+
+
+AXIOMS_OF = {}
+# axioms the standard library itself declares, which individual theorems may rely on (named in DESIGN.md, trusted base)
+STDLIB_AXIOMS = {
+    # Coq.Floats.FloatAxioms: the specification of the kernel's primitive binary64 operations
+    "FloatAxioms.ltb_spec", "ltb_spec", "FloatAxioms.Prim2SF_valid", "Prim2SF_valid", "FloatAxioms.SF2Prim_Prim2SF", "SF2Prim_Prim2SF",
+    "FloatAxioms.Prim2SF_SF2Prim", "Prim2SF_SF2Prim", "FloatAxioms.compare_spec", "compare_spec",
+    "FloatAxioms.eqb_spec", "eqb_spec", "FloatAxioms.abs_spec", "abs_spec", "FloatAxioms.leb_spec", "leb_spec", "FloatAxioms.opp_spec", "opp_spec",
+    "Classical_Prop.classic", "classic",
+    # Coq.Reals (Flocq's real-number semantics of binary64)
+    "ClassicalDedekindReals.sig_forall_dec", "sig_forall_dec", "ClassicalDedekindReals.sig_not_dec", "sig_not_dec",
+    "FunctionalExtensionality.functional_extensionality_dep", "functional_extensionality_dep",
+}
 
 
 _FORBIDDEN = re.compile(r"\b(Admitted|admit|Axiom|Axioms|Parameter|Parameters|Conjecture|Hypothesis|Variable|Variables|Hypotheses)\b|Unset\s+Guard|bypass_check|Admit\s+Obligations|native_compute|type-in-type|impredicative-set")
@@ -363,6 +380,18 @@ class Ctx:
         for n in names:
             a = assum.get(n, "missing")
             okk = not a.startswith("ERROR") and a != "missing"
+            if okk and not a.startswith("Closed under the global context"):
+                # not closed: every axiom must be one the standard library declares, and the theorem must be listed as relying on such
+                # the kernel's primitive machine integers / binary64 floats are listed by Print Assumptions too: they are primitives, not axioms
+                allax = AXIOMS_OF.get(n, [])
+                ax = [x for x in allax if not (x.startswith("PrimInt63.") or x.startswith("PrimFloat."))]
+                if not ax:
+                    okk = bool(allax)
+                    a = "Closed under the global context but for the kernel's primitive int63 / binary64 operations (%d listed)" % len(allax)
+                else:
+                    okk = all(x in STDLIB_AXIOMS for x in ax) and n in getattr(self, "may_use_stdlib_axioms", ())
+                    a = ("relies on axioms declared by the standard library: " + ", ".join(ax) + " (and the kernel's primitive int63 / binary64 operations)") if okk \
+                        else ("NOT CLOSED (axioms: %s) " % ", ".join(ax)) + a
             self.oblige("theorem:" + n, okk, a[:300])
         if self.thorough and not os.environ.get("VERIF_SKIP_COQCHK"):
             # independent re-check of the compiled property file and everything it depends on; -o prints the axioms relied upon
